@@ -202,3 +202,25 @@ pub struct UnusualGenericsExpand;
 /// struct W { #[serde(rename = "x",)] a_b: i32 }
 /// ```
 pub struct SerdeListFormsAccepted;
+
+/// Items named like prelude types do not capture the names the generated code uses.
+/// ```no_run
+/// #![allow(dead_code)]
+/// mod m {
+///     #[derive(ts_rs::TS)]
+///     pub struct String { a: i32 }
+///     #[derive(ts_rs::TS)]
+///     pub struct Option { s: String }
+///     #[derive(ts_rs::TS)]
+///     pub enum Some<T> { V(T) }
+///     /// documented, exported to a directory, with a flattened member and a tuple
+///     #[derive(ts_rs::TS)]
+///     #[ts(export_to = "w/")]
+///     pub struct Holder<T> { o: Option, s: Some<T>, #[ts(flatten)] f: Inner, t: (i32, i32) }
+///     #[derive(ts_rs::TS)]
+///     pub struct Inner { #[ts(flatten)] e: E }
+///     #[derive(ts_rs::TS)]
+///     pub enum E { A { x: i32 }, B { y: i32 } }
+/// }
+/// ```
+pub struct PreludeNamesNotCaptured;
